@@ -249,6 +249,22 @@ def run(ctx):
         cs, bins = parse_bins(f"{cpath}:{b}")
         got2 = [[names.index(str(c)), int(s_), int(e)] for c, s_, e in zip(bins["chrom"].astype(str), bins["start"], bins["end"])]
         ctx.compare("parse_bins", case, got2, [list(r) for r in mo])
+        # the same table handed over as a BED bins FILE (the other branch of parse_bins), with chromosome names that look like a
+        # header line's first field ("chrom…", "#chrom…", "Chromosome_…") among others: every row of the file is a bin
+        alt = [names, [f"chrom{i + 1}" for i in range(len(sizes))], [f"Chromosome_{i + 1}" for i in range(len(sizes))],
+               [f"#chrom{i}" for i in range(len(sizes))], [f"chr{i + 1}" for i in range(len(sizes))], [f"start{i}" for i in range(len(sizes))]][k % 6]
+        bpath = gdir / f"bins{k}.bed"
+        bpath.write_text("".join(f"{alt[r[0]]}\t{r[1]}\t{r[2]}\n" for r in mo))
+        case_b = {"fn": "parse_bins(BED bins file)", "sizes": sizes, "binsize": b, "names": alt}
+        ctx.case(case_b, kind="glue:bedfile")
+        try:
+            cs_b, bins_b = parse_bins(str(bpath))
+            got_b = [[alt.index(str(c)) if str(c) in alt else -1, int(s_), int(e)] for c, s_, e in zip(bins_b["chrom"].astype(str), bins_b["start"], bins_b["end"])]
+            cs_got = [[alt.index(str(n)) if str(n) in alt else -1, int(v)] for n, v in zip(cs_b.index, cs_b.values)]
+            if got_b != [list(r) for r in mo] or cs_got != [[i, L] for i, L in enumerate(sizes)]:
+                ctx.fail(case_b, {"bins": got_b[:8], "chromsizes": cs_got, "expected_first_bins": [list(r) for r in mo][:8]}, None)
+        except Exception as e:
+            ctx.fail(case_b, {"error": repr(e)}, None)
         if max(sizes) < 2 ** 20:
             # a cooler created over this table reports bin-size b exactly when some chromosome has >= 2 bins
             uri = str(gdir / f"g{k}.cool")
